@@ -72,7 +72,16 @@ type req struct {
 	result  string
 	// service requests: the answer has been handed to an op line already
 	reported bool
+	// the request's own context (op `cancel`), and a write of this request's value that was handed to
+	// another goroutine and is parked at the gate although the handler may already have answered
+	ctx        context.Context
+	cancel     context.CancelFunc
+	child      bool
+	childDone  chan struct{}
 }
+
+func (r *req) hasChild() bool { r.mu.Lock(); defer r.mu.Unlock(); return r.child }
+func (r *req) setChild(b bool) { r.mu.Lock(); r.child = b; r.mu.Unlock() }
 
 func (r *req) get() string { r.mu.Lock(); defer r.mu.Unlock(); return r.state }
 func (r *req) set(s string) {
@@ -83,6 +92,7 @@ func (r *req) set(s string) {
 	}
 	r.mu.Unlock()
 }
+func (r *req) loaded() bool { r.mu.Lock(); defer r.mu.Unlock(); return r.gen >= 1 }
 func (r *req) snap() (string, int) { r.mu.Lock(); defer r.mu.Unlock(); return r.state, r.gen }
 
 // shared is the registry of gated request goroutines (one for all servers).
@@ -107,6 +117,20 @@ func (g *gateBase) lookup() *req {
 	g.sh.mu.Lock()
 	defer g.sh.mu.Unlock()
 	return g.sh.reqs[id]
+}
+
+// lookupByVal: a Save of gc/safe_point made by a goroutine that is not a registered request goroutine,
+// while a gated request with exactly this value is between its Load and its Save: the handler handed its
+// write to another goroutine.  The write is gated as that request's Save.
+func (g *gateBase) lookupByVal(value string) *req {
+	g.sh.mu.Lock()
+	defer g.sh.mu.Unlock()
+	for _, r := range g.sh.reqs {
+		if r.get() == "run" && r.loaded() && !r.hasChild() && strconv.FormatUint(r.val, 16) == value {
+			return r
+		}
+	}
+	return nil
 }
 
 func (g *gateBase) lookupSvc() *req {
@@ -141,6 +165,31 @@ func ownSave() bool {
 }
 
 func (g *gateBase) Save(key, value string) error {
+	if key == gcKey && g.lookup() == nil {
+		if r := g.lookupByVal(value); r != nil {
+			r.setChild(true)
+			r.set("S")
+			r.parked <- "S"
+			f := <-r.release
+			if r.get() != "done" {
+				r.set("run")
+			}
+			var err error
+			switch f {
+			case "before":
+				err = errInjected
+			case "after":
+				if err = g.Base.Save(key, value); err == nil {
+					err = errInjected
+				}
+			default:
+				err = g.Base.Save(key, value)
+			}
+			r.setChild(false)
+			r.childDone <- struct{}{}
+			return err
+		}
+	}
 	if key == gcKey {
 		if r := g.lookup(); r != nil {
 			r.set("S")
@@ -479,8 +528,10 @@ func errKind(err error) string {
 }
 
 // update runs the real handler once.
-func (w *world) update(v uint64) string {
-	resp, err := w.S().UpdateGCSafePoint(w.ctx(), &pdpb.UpdateGCSafePointRequest{Header: w.hdr, SafePoint: v})
+func (w *world) update(v uint64) string { return w.updateCtx(w.ctx(), v) }
+
+func (w *world) updateCtx(ctx context.Context, v uint64) string {
+	resp, err := w.S().UpdateGCSafePoint(ctx, &pdpb.UpdateGCSafePointRequest{Header: w.hdr, SafePoint: v})
 	if err != nil {
 		return errKind(err)
 	}
@@ -555,6 +606,16 @@ func (w *world) releaseAndWait(r *req, fault string) bool {
 }
 
 func (w *world) reset(two bool) string {
+	// writes that outlived their handler: let them fail before anything else
+	for _, r := range w.reqs {
+		if r.get() == "done" && r.hasChild() {
+			r.release <- "before"
+			select {
+			case <-r.childDone:
+			case <-time.After(3 * time.Second):
+			}
+		}
+	}
 	// finish everything that is still pending (bounded)
 	for round := 0; round < 12 && w.live()+w.svcLive() > 0; round++ {
 		for _, l := range [][]*req{w.reqs, w.sreqs} {
@@ -619,7 +680,9 @@ func (w *world) uspCall(svc string, ttl int64, sp uint64, now int64) string {
 }
 
 func newReq(idx int, v uint64) *req {
-	return &req{idx: idx, val: v, state: "run", parked: make(chan string, 1), release: make(chan string, 1), done: make(chan string, 1)}
+	ctx, cancel := context.WithCancel(context.Background())
+	return &req{idx: idx, val: v, state: "run", parked: make(chan string, 1), release: make(chan string, 1), done: make(chan string, 1),
+		ctx: ctx, cancel: cancel, childDone: make(chan struct{}, 1)}
 }
 
 func (w *world) exec(op string) string {
@@ -660,7 +723,7 @@ func (w *world) exec(op string) string {
 			w.sh.reqs[r.goid] = r
 			w.sh.mu.Unlock()
 			close(ready)
-			r.done <- w.update(v)
+			r.done <- w.updateCtx(r.ctx, v)
 		}()
 		<-ready
 		if !w.settle() {
@@ -679,12 +742,36 @@ func (w *world) exec(op string) string {
 		r := w.reqs[i]
 		switch r.get() {
 		case "done":
+			if r.hasChild() {
+				// the handler has answered, its write is still parked: let it land
+				r.release <- fault
+				select {
+				case <-r.childDone:
+				case <-time.After(5 * time.Second):
+					return "stuck"
+				}
+				return "orphan-write"
+			}
 			return bad
 		case "L", "S":
 			if !w.releaseAndWait(r, fault) {
 				return "stuck"
 			}
 		}
+		if !w.settle() {
+			return "stuck"
+		}
+		return w.reqOut(r)
+	case len(f) == 2 && f[0] == "cancel":
+		// the caller of a gated request goes away: its context is cancelled.  The handler must not answer
+		// or release anything because of that while its storage access is pending.
+		i, ok := i64(f[1])
+		if !ok || i < 0 || int(i) >= len(w.reqs) || w.reqs[i].get() == "done" {
+			return bad
+		}
+		r := w.reqs[i]
+		r.cancel()
+		time.Sleep(2 * time.Millisecond)
 		if !w.settle() {
 			return "stuck"
 		}
@@ -974,6 +1061,14 @@ func genSchedule(w *world, t *trace.W, sched []int, vals []uint64, eager bool, p
 }
 
 func drain(w *world, t *trace.W, r *rng.R) {
+	defer func() {
+		// a write that outlived its (cancelled) request lands last
+		for _, q := range w.reqs {
+			if q.get() == "done" && q.hasChild() {
+				w.run(t, fmt.Sprintf("step %d", q.idx))
+			}
+		}
+	}()
 	for round := 0; round < 50 && w.live() > 0; round++ {
 		for _, q := range w.reqs {
 			if q.get() != "done" {
@@ -1019,8 +1114,10 @@ func genCluster(w *world, t *trace.W, r *rng.R, maxOps int) {
 				live = append(live, q)
 			}
 		}
-		c := r.Pick(25, 45, 10, 10, 10)
+		c := r.Pick(25, 45, 10, 10, 10, 8)
 		switch {
+		case c == 5 && len(live) > 0:
+			w.run(t, fmt.Sprintf("cancel %d", live[r.Intn(len(live))].idx))
 		case c == 0 && len(w.reqs) < 6:
 			w.run(t, fmt.Sprintf("upd %d %d", len(w.reqs), randVal(r)))
 		case c == 1 && len(live) > 0:
